@@ -176,10 +176,14 @@ theorem descend_mono {w1 w2 r1 r2 : E → Prec → Option E} (hw : Le w1 w2) (hr
       rw [hgi x1 hx]
       simp only
       split
-      · rename_i hp; rw [if_pos hp] at h; exact hr _ _ _ h
-      · rename_i hp
-        rw [if_neg hp] at h
-        exact map_mono h (fun t' ht' => hr _ _ _ ht')
+      · rename_i hq; rw [if_pos hq] at h; cases h
+      · rename_i hq
+        rw [if_neg hq] at h
+        split
+        · rename_i hp; rw [if_pos hp] at h; exact hr _ _ _ h
+        · rename_i hp
+          rw [if_neg hp] at h
+          exact map_mono h (fun t' ht' => hr _ _ _ ht')
   | call f args => simp only [descend] at h ⊢; exact descLink_mono hr _ p t h
   | opt a e =>
     simp only [descend] at h ⊢
